@@ -513,6 +513,9 @@ PROPS['C04']['traces'].append(gen_family('genbatch', GEN_BATCH, enforce=['recok'
 PROPS['C07']['traces'].append(gen_family('genmergecrash', GEN_MERGEC))
 PROPS['C06']['traces'].append(gen_family('genmerge', GEN_MERGE))
 PROPS['C01']['traces'].append(gen_family('genmap', GEN_MAP))
+# Backup at quiescent instants of generated behaviours (the copy, opened on its own, is shown as a view of that instant)
+GEN_BACKUP = [dict(consts=dict(Features='{"batch", "delete", "restart", "merge", "backup"}', MaxOps=8, MaxFaults=0, MaxMerges=2, MaxRestarts=2, MaxBatch=2, Limits='{1, 2, 3}'), num=200, thorough_num=2000, depth=100)]
+PROPS['C20']['traces'].append(gen_family('genbackup', GEN_BACKUP, enforce=['view', 'recok']))
 PROPS['C13']['traces'].append(gen_family('gensync', GEN_SYNC, enforce=['c13always', 'c13batch', 'c13sync', 'c13rot', 'view']))
 def syncrace_sig(e):
     if e.get('ev') == 'ret':
